@@ -152,6 +152,67 @@ def strat_random_seq(tier):
         'seed': st.integers(0, 2 ** 32 - 1), 'high': st.just(h), 'seq': seqs(h)}))
 
 
+def strat_callsites(tier):
+    seeds = st.one_of(st.sampled_from([0, 1, 5, 123456]), st.integers(0, 2 ** 32 - 1))
+    idx = st.one_of(st.integers(0, 6), st.integers(0, 400))
+    return st.fixed_dictionaries({
+        'seeds': st.lists(seeds, min_size=1, max_size=3),
+        'calls': st.lists(st.tuples(st.integers(0, 2), idx), min_size=1, max_size=14),
+        'site': st.sampled_from(['prepare_seed', 'loader']),
+    })
+
+
+def run_callsites(case):
+    """The two call sites that derive seeds through get_sub_seed, driven with interleaved histories.
+
+    prepare_seed: the seed handed to an external operation for run `index_in_batch` of a batch whose generator was
+    seeded with s is sub_seed(first state word, index) - whatever was requested before (other batches, other runs).
+    loader: the batch generator RandomStateLoader puts into a compiled net for (context seed, batch index) is
+    RandomState(sub_seed(seed, index)), on a context that has served any other indices before.
+    """
+    import networkx as nx
+    seeds = case['seeds']
+    calls = [(seeds[k % len(seeds)], i) for k, i in case['calls']]
+    labels = ['site=' + case['site']]
+    if case['site'] == 'prepare_seed':
+        from elfi.model.tools import prepare_seed
+        for step, (s, i) in enumerate(calls):
+            rs = np.random.RandomState(s)
+            word = int(rs.get_state()[1][0])
+            with must_not_raise(P, 'prepare_seed(random_state=RandomState(%d), index_in_batch=%d)' % (s, i)):
+                _, kw = prepare_seed(random_state=rs, index_in_batch=i)
+            ref = sub_seed_table(word, 2 ** 31, i + 1)[0][i]
+            if int(kw['seed']) != ref:
+                raise Violation('C15:prepare_seed-history-dependent',
+                                'call %d of %r: prepare_seed gave seed %d for (generator seed %d, run %d); (seed, index) determines %d'
+                                % (step, calls, int(kw['seed']), s, i, ref))
+    else:
+        from elfi.loader import RandomStateLoader
+        from elfi.model.elfi_model import ComputationContext
+        ctxs = {}
+        for step, (s, i) in enumerate(calls):
+            ctx = ctxs.setdefault(s, ComputationContext(batch_size=2, seed=s))
+            for c in (ctx, ComputationContext(batch_size=2, seed=s)):
+                net = nx.DiGraph()
+                net.add_node('_random_state')
+                with must_not_raise(P, 'RandomStateLoader.load(context seed %d, batch %d)' % (s, i)):
+                    RandomStateLoader.load(c, net, i)
+                got = net.nodes['_random_state']['output'].get_state()[1]
+                ref = np.random.RandomState(sub_seed_table(s, 2 ** 31, i + 1)[0][i]).get_state()[1]
+                if not np.array_equal(got, ref):
+                    raise Violation('C15:loader-history-dependent',
+                                    'call %d of %r: batch generator for (seed %d, batch %d) on a %s context is not RandomState(sub_seed)'
+                                    % (step, calls, s, i, 'used' if c is ctx else 'fresh'))
+    idxs = [i for _, i in calls]
+    interleaved = len(set(s for s, _ in calls)) > 1
+    nonmono = any(b <= a for a, b in zip(idxs, idxs[1:]))
+    if interleaved:
+        labels.append('interleaved-seeds')
+    if nonmono:
+        labels.append('non-increasing')
+    return CaseResult(labels, True if (interleaved and nonmono and len(calls) >= 3) else None)
+
+
 def coverage_extra(tier, results):
     return {'exhaustive': True,
             'exhaustive_scope': 'part enum-sequences enumerates ALL index sequences of length 1..4 over [0, high] '
@@ -166,11 +227,15 @@ CHECK = Check(
           'reference (i+1)-th distinct value of the one-at-a-time randint stream; random-sequences / distinct: '
           'Hypothesis-generated seeds over uint32, high in {7..64, 1000, 2^16, 2^31, 2^32}, sequences up to 12 indices '
           'up to 300. Non-trivial = the sequence repeats or decreases an index AND the underlying stream contained at '
-          'least one duplicate draw before the largest index was served (distinct cases counted by hash).'),
+          'least one duplicate draw before the largest index was served (distinct cases counted by hash). call-sites: '
+          'histories of (generator seed, index) requests through prepare_seed (external operations) and through '
+          'RandomStateLoader on used vs fresh contexts; non-trivial = >=3 calls interleaving >=2 seeds with a '
+          'non-increasing index.'),
     parts=[
         Part('enum-sequences', run_sequence, enumerate_cases=enum_sequences, shards={'quick': 16, 'thorough': 16}),
         Part('random-sequences', run_sequence, strategy=strat_random_seq, examples={'quick': 1200, 'thorough': 40000}),
         Part('distinct', run_distinct, strategy=strat_distinct, examples={'quick': 600, 'thorough': 16000}),
+        Part('call-sites', run_callsites, strategy=strat_callsites, examples={'quick': 600, 'thorough': 16000}),
     ],
     assumptions=['legacy numpy RandomState.randint(high, dtype=uint32) yields the same stream whether drawn one at a '
                  'time or in blocks (asserted by the reference comparison itself: elfi draws in blocks, the reference '
